@@ -17,10 +17,10 @@ import e2e_common as ec
 
 CFG = {
     "C03": {"props": ["C03", "C03Num"], "profiles": [("control", 0.8), ("int", 0.2)],
-            "quick": (2000, 480), "thorough": (20000, 3000), "per_func": 3, "sim": {"quick": 240, "thorough": 2400},
+            "quick": (2000, 480), "thorough": (20000, 3000), "per_func": 3, "sim": {"quick": 240, "thorough": 1600},
             "what": "control flow / operand stack / locals"},
     "C04": {"props": ["C04", "C03Num"], "profiles": [("calls", 0.85), ("init", 0.15)],
-            "quick": (1500, 400), "thorough": (12000, 3000), "per_func": 4, "sim": {"quick": 300, "thorough": 2400},
+            "quick": (1500, 400), "thorough": (12000, 3000), "per_func": 4, "sim": {"quick": 300, "thorough": 1600},
             "what": "direct / indirect / recursive / imported calls"},
 }
 TOKEN_MODES = ((False, False), (False, True), (True, False), (True, True))       # (-m, -p)
